@@ -41,6 +41,8 @@ OWNED = frozenset(['Running', 'AwokenWhileRunning', 'WaitingForUnpark'])
 # ... and states an owner moves to when it gives the token up.
 UNOWNED = frozenset(['Idle', 'Pending', 'WaitingForWake', 'WaitingForPoll', 'Panicked'])
 PARKED = frozenset(['WaitingForWake', 'WaitingForUnpark', 'WaitingForPoll'])
+NEEDS_ENTRY = frozenset(['Pending', 'WaitingForPoll'])      # states in which only a schedule entry gets the queue a runner
+SCHEDULE_REMOVERS = ('retain', 'retain_mut', 'remove', 'clear', 'drain', 'truncate', 'pop_back', 'split_off')
 
 STD_ENUMS = {
     'core::option::Option': {'0': 'None', '1': 'Some'},
@@ -48,11 +50,11 @@ STD_ENUMS = {
     'core::task::poll::Poll': {'0': 'Ready', '1': 'Pending'},
 }
 
-Store = namedtuple('Store', 'S P T V len0 own resched sched pend S0 pan pre acq0 act pushed rel susp')
+Store = namedtuple('Store', 'S P T V len0 own resched sched pend S0 pan pre acq0 act pushed rel susp rm')
 
 
 def mk_store(T='N', P=None):
-    return Store(S=None, P=P, T=T, V=(), len0='?', own='?', resched=0, sched=0, pend=0, S0=None, pan=0, pre=None, acq0=None, act=0, pushed=0, rel=None, susp=0)
+    return Store(S=None, P=P, T=T, V=(), len0='?', own='?', resched=0, sched=0, pend=0, S0=None, pan=0, pre=None, acq0=None, act=0, pushed=0, rel=None, susp=0, rm=0)
 
 
 def vget(st, l):
@@ -855,6 +857,8 @@ class Proto:
                 x = x._replace(S=frozenset([s2]), T=T, S0=x.S0 if x.S0 is not None else frozenset([s]))
                 if role == 'owner' and T == 'R':
                     x = x._replace(rel=s2)
+                if role == 'acquire':
+                    x = x._replace(rm=0)
                 if s2 != s:
                     x = self._unsame(x)
                 if role == 'owner' and s2 == 'Idle' and s != s2:
@@ -903,6 +907,8 @@ class Proto:
                 self.viol.append(('TOK-pending', fn.name, 'queue marked Pending but not (pushed on the schedule and a thread asked) before returning', fn.loc(bb)))
             if st.pend:
                 self.viol.append(('TOK-requeue', self._evn(fn), 'returns while a job that returned Pending has not been put back', fn.loc(bb)))
+            if st.rm and ((st.S if st.S is not None else self.ALL) & NEEDS_ENTRY):
+                self.viol.append(('TOK-unschedule', self._evn(fn), 'the queue\'s schedule entries are removed but the queue may be left %s without being claimed: no pool thread will ever pick it up' % '/'.join(sorted((st.S if st.S is not None else self.ALL) & NEEDS_ENTRY)), fn.loc(bb)))
             self.events[('exit', self._evn(fn), '')].add((st.T, ret))
             self.events[('exit_pan', self._evn(fn), '')].add((st.pan, ret))
             self.events[('exit_state', self._evn(fn), '')].add((st.T, st.rel, ret))
@@ -1205,6 +1211,14 @@ class Proto:
             if e[0] == 'field' and e[2] == 'schedule' or 'VecDeque<alloc::sync::Arc<desync::JobQueue>>' in clean_ty(args[0].get('pl', {}).get('ty', '')):
                 if st.sched == 1 and name.endswith('push_back'):
                     return done(st._replace(sched=2), None)
+            return done(st, None)
+        if name.split('::')[-1] in SCHEDULE_REMOVERS and '::VecDeque::' in name and args and args[0]['k'] != 'const' \
+                and 'VecDeque<alloc::sync::Arc<desync::JobQueue>>' in clean_ty(args[0].get('pl', {}).get('ty', '')):
+            # entries of the queue at hand are taken off the schedule: whoever does that must claim the queue if it still needs a runner
+            if record:
+                self.events[('sched_remove', self._evn(fn), name.split('::')[-1])].add((st.S if st.S is not None else self.ALL, st.T))
+            if st.T != 'H':
+                return done(st._replace(rm=1), None)
             return done(st, None)
         if name.endswith('::VecDeque::pop_front') or name.endswith('::VecDeque::pop_back') or name.endswith('::VecDeque::clear'):
             e = fn.expr_of_operand(args[0])
